@@ -71,7 +71,9 @@ class PySide:
                 self.mass.init(self.tables[op[1]])
                 return ("unit",)
             if k == "define":
-                ns = {}
+                # one namespace per session: a second `define` lands on the names of the first
+                ns = getattr(self, "ns", None)
+                ns = {} if ns is None else ns
                 core.define_elements(self.tables[op[1]], ns)
                 self.ns = ns
                 return ("unit",)
@@ -126,7 +128,11 @@ class PySide:
             self.results.extend(v)
             return ("objs", len(v))
         if not self.isatom(v):
-            return ("err", "not-an-atom")
+            # reading a method or data attribute of the table is not a lookup; a *lookup* that hands
+            # back something which is not an atom has not raised
+            if k in ("attr", "modattr"):
+                return ("err", "not-an-atom")
+            return ("notatom", type(v).__name__)
         self.results.append(v)
         return ("obj", len(self.results) - 1)
 
